@@ -631,6 +631,21 @@ def nest_positions(x):
     ]
 
 
+# Names of document keys that are not fields.  A JSON key is any string: names with a leading underscore, dunder-shaped
+# names, camel/snake case, non-ASCII and a name made of a field's name are keys like any other (the constructor keeps
+# them all on a class that allows additional properties).  EXCLUDED on purpose: names of a Structure's own bookkeeping
+# attributes (_instantiated, _none_fields, _skip_validation, _trust_supplied_values, _required, _additional_properties,
+# _ignore_none, ...) and of object attributes (__class__, __dict__): the constructor itself refuses or reinterprets those.
+EXTRA_NAMES = ["zz", "_id", "_x1", "__v__", "__dunder__", "camelCase", "snake_case", "\u65e5\u672c", "_a"]
+
+
+def rename_extras(o, i):
+    """JSON object o with its non-field keys zz / yy renamed to the i-th and (i+4)-th name of the pool"""
+    n = len(EXTRA_NAMES)
+    ren = {"zz": EXTRA_NAMES[i % n], "yy": EXTRA_NAMES[(i + 4) % n]}
+    return {ren.get(k, k): v for k, v in o.items()}
+
+
 # JSON objects of the nested class: plain, with a key that is not a field, with an optional field and such a key
 NEST_INNER_DOCS = [
     ("no-extra", [{"a": 1}, {"a": 2, "b": "x"}]),
